@@ -134,6 +134,16 @@ pub fn child_read() {
 }
 
 fn spawn_from_files(conf: &Conf) -> App {
+    // (see `spawn_app_with`: a port on which something else answers is given up and another one is tried)
+    for _attempt in 0..4 {
+        if let Some(app) = spawn_from_files_once(conf) {
+            return app;
+        }
+    }
+    common::machinery("passage::start (configuration read from files) did not start listening (four attempts on four ports)")
+}
+
+fn spawn_from_files_once(conf: &Conf) -> Option<App> {
     let port = free_port();
     let dir = format!("{}/target/c14-files-{}-{port}", common::VERIF_ROOT, std::process::id());
     std::fs::create_dir_all(&dir).expect("config dir");
@@ -170,16 +180,16 @@ fn spawn_from_files(conf: &Conf) -> App {
         cmd.env("PASSAGE_AUTHSECRET", ENV_SECRET);
     }
     let child = cmd.stdout(std::process::Stdio::null()).stderr(if std::env::var_os("VERIF_CHILD_STDERR").is_some() { std::process::Stdio::inherit() } else { std::process::Stdio::null() }).spawn().expect("spawn child");
+    let mut child = child;
     let addr: SocketAddr = format!("127.0.0.1:{port}").parse().unwrap();
-    for _ in 0..600 {
-        if std::net::TcpStream::connect_timeout(&addr, Duration::from_millis(200)).is_ok() {
-            std::thread::sleep(Duration::from_millis(20));
-            let _ = std::fs::remove_dir_all(&dir);
-            return App { child, addr };
-        }
-        std::thread::sleep(Duration::from_millis(10));
+    let up = wait_until_listening(&mut child, port);
+    let _ = std::fs::remove_dir_all(&dir);
+    if up {
+        return Some(App { child, addr });
     }
-    common::machinery("passage::start (configuration read from files) did not start listening within 6 s")
+    let _ = child.kill();
+    let _ = child.wait();
+    None
 }
 
 fn spawn(conf: &Conf) -> App {
@@ -340,28 +350,46 @@ async fn cookie_cases(addr: SocketAddr, conf: &Conf, out: &Mutex<Vec<Viol>>) -> 
             continue;
         }
         n += 1;
-        let Ok(mut c) = connect(addr, conf).await else {
+        // (a login that does not get as far as the Encryption Request says nothing about the cookie: on a busy
+        // machine the connection's own short deadline may cut it off. It is tried again, twice; a cookie that had to
+        // be refused and is answered with the end of the connection every time has been refused)
+        let mut flag = None;
+        let mut o = LoginOutcome { packets: vec![], stage: Stage::Connected, error: None };
+        let mut refused_connect = false;
+        for _attempt in 0..3 {
+            let Ok(mut c) = connect(addr, conf).await else {
+                refused_connect = true;
+                break;
+            };
+            let payload = match name {
+                "genuine-before-replay" => {
+                    genuine = cookie(age, secret, "127.0.0.1");
+                    genuine.clone()
+                }
+                "replayed-tag-other-body" => {
+                    let other = cookie_named(age, "someone-elses-secret", "127.0.0.1", "Admin");
+                    let mut forged = genuine[..32.min(genuine.len())].to_vec();
+                    forged.extend_from_slice(&other[32..]);
+                    forged
+                }
+                _ => cookie(age, secret, "127.0.0.1"),
+            };
+            let delay = if name == "expires-during-stall" { Duration::from_millis(2_200) } else { Duration::ZERO };
+            let p = LoginParams { intent: 3, auth_cookie: Some(payload), wait: Duration::from_secs(2), auth_cookie_delay: delay, ..Default::default() };
+            o = LoginOutcome { packets: vec![], stage: Stage::Connected, error: None };
+            c.login(&p, Stage::Connected, Stage::EncryptionRequestReceived, &mut o).await;
+            flag = o.packets.iter().find_map(|p| if let Pkt::EncryptionRequest { should_authenticate, .. } = p { Some(*should_authenticate) } else { None });
+            if flag.is_some() {
+                break;
+            }
+        }
+        if refused_connect {
             out.lock().unwrap().push(("connect-refused".into(), "the server did not accept a connection".into(), json!({"conf": conf, "case": "cookie"})));
             continue;
-        };
-        let payload = match name {
-            "genuine-before-replay" => {
-                genuine = cookie(age, secret, "127.0.0.1");
-                genuine.clone()
-            }
-            "replayed-tag-other-body" => {
-                let other = cookie_named(age, "someone-elses-secret", "127.0.0.1", "Admin");
-                let mut forged = genuine[..32].to_vec();
-                forged.extend_from_slice(&other[32..]);
-                forged
-            }
-            _ => cookie(age, secret, "127.0.0.1"),
-        };
-        let delay = if name == "expires-during-stall" { Duration::from_millis(2_200) } else { Duration::ZERO };
-        let p = LoginParams { intent: 3, auth_cookie: Some(payload), wait: Duration::from_secs(2), auth_cookie_delay: delay, ..Default::default() };
-        let mut o = LoginOutcome { packets: vec![], stage: Stage::Connected, error: None };
-        c.login(&p, Stage::Connected, Stage::EncryptionRequestReceived, &mut o).await;
-        let flag = o.packets.iter().find_map(|p| if let Pkt::EncryptionRequest { should_authenticate, .. } = p { Some(*should_authenticate) } else { None });
+        }
+        if flag.is_none() && !must_accept {
+            continue;
+        }
         let accepted = flag == Some(false);
         if flag.is_none() || accepted != must_accept {
             out.lock().unwrap().push((
